@@ -23,10 +23,14 @@ PROPERTY = 'C20'
 RULE = ('Hypothesis-generated workbook model: 2-7 sites typed ROADM/ILA/FUSED/blank/other, spanning tree + extra '
         'links in random orientation and order, link rows one-sided / two-sided (all west cells different) / mixed, '
         'optional Eqpt sheet (none/partial/full, 12 or 14 columns, fused variety, one- or two-sided rows), optional '
-        'Roadms sheet (per-degree power, type variety, impairment ids), optional Service sheet, trailing ghost rows; '
-        'rendered to .xlsx and to an xlrd stub. Invalid = valid model + exactly one documented rule violation. '
+        'Roadms sheet (per-degree power, type variety, impairment ids), optional Service sheet (1-4 rows, numeric or '
+        'text ids, route lists of ROADM names or an ILA hop, strictness, disjoint-from cells), trailing ghost rows; '
+        'rendered to .xlsx and to an xlrd stub. invalid = valid model + exactly one documented rule violation (13 '
+        'rules). shapes = tagged classes whose treatment the documentation decides (FUSED of degree 1/3, self link, '
+        'automatically typed ROADM with Eqpt rows / named by city in a route, numeric impairment id, other "is loose?" '
+        'values). fixtures = shipped workbooks read unchanged through the real xlrd/openpyxl readers. '
         'Non-trivial (valid) = workbook with >=1 link row whose filled west cells differ from east AND >=1 ILA or '
-        'FUSED site AND (an Eqpt row or a Service row); non-trivial (invalid) = every case; shapes = every case. '
+        'FUSED site AND (an Eqpt row or a Service row); invalid, shapes, fixtures: every case. '
         'distinct = sha1 of the case JSON.')
 ASSUMPTIONS = [
     'equipment library: gnpy/example-data/eqpt_config.json; amplifier, fibre, ROADM and transceiver names of generated '
@@ -36,7 +40,10 @@ ASSUMPTIONS = [
     'blank cells: only documented defaults are judged (distance 80, fibre SSMF, loss 0.2, west := east); blank '
     'connector/PMD cells and blank amplifier cells must not produce a non-zero setting',
     'length tolerance 0.5 m (the converter rounds to 3 decimals), PMD relative 1e-6, unit conversions relative 1e-12',
-    'route lists name ROADM sites only (by city name or by `roadm <city>`), each at most once, as docs/excel.rst asks',
+    'route lists name ROADM sites (by city name when the Type cell says ROADM, else by `roadm <city>`), each at most '
+    'once, as docs/excel.rst asks; optionally one ILA site followed by the next non-fused site of one direction '
+    '(rule in the docstring/comments of correct_xls_route_list and tests/test_parser.py)',
+    'spacing >= 75 GHz and known transceiver/mode names, so that every generated request is loadable',
     'Eqpt rows are generated for ROADM and ILA sites only (the sheet is documented for those), Roadms rows only for '
     'degrees whose amplifiers are named in the Eqpt sheet',
 ]
@@ -362,10 +369,9 @@ def check_roadm_element(ctx, model, site, el, facts):
     if set(got_p) != set(want_p) or any(not _num_eq(got_p[k], v) for k, v in want_p.items()):
         ctx.violation('roadm-per-degree-power', f'site {x}: sheet {want_p} (keyed by the amplifier facing Node Z), '
                                                 f'element {got_p}')
-    got_i = sorted((d.get('from_degree'), d.get('to_degree'), d.get('impairment_id'))
-                   for d in prm.get('per_degree_impairments') or [])
-    if got_i != sorted(want_i, key=lambda t: (str(t[0]), str(t[1]), t[2])) and sorted(map(str, got_i)) != \
-            sorted(map(str, want_i)):
+    got_i = [(d.get('from_degree'), d.get('to_degree'), d.get('impairment_id'))
+             for d in prm.get('per_degree_impairments') or []]
+    if sorted(map(str, got_i)) != sorted(map(str, want_i)):
         ctx.violation('roadm-per-degree-impairments', f'site {x}: sheet {want_i}, element {got_i}')
     if el.get('type_variety') != want_v and not (want_v is None and el.get('type_variety') in (None, 'default')):
         ctx.violation('roadm-type-variety', f'site {x}: sheet {want_v!r}, element {el.get("type_variety")!r}')
@@ -777,11 +783,11 @@ def shape_case(draw):
 
 
 CHECKS = [
-    Check('valid', wbk.valid_model(), run_valid, quick=380, thorough=20000,
+    Check('valid', wbk.valid_model(), run_valid, quick=380, thorough=12000,
           doc='valid workbooks: .xlsx and stubbed .xls conversion vs model oracle, load+design, service sheet'),
-    Check('invalid', wbk.invalid_model(), run_invalid, quick=300, thorough=12000,
+    Check('invalid', wbk.invalid_model(), run_invalid, quick=300, thorough=8000,
           doc='valid model + one documented rule violation => NetworkTopologyError on both branches'),
-    Check('shapes', shape_case(), run_shape, quick=80, thorough=2000,
+    Check('shapes', shape_case(), run_shape, quick=80, thorough=1500,
           doc='FUSED degree != 2, self-link, re-typed ROADM with Eqpt rows, numeric impairment id, loose? values'),
     Check('fixtures', st.sampled_from(sorted(FIXTURES)).map(lambda p: {'fixture': p}), run_fixture,
           quick=len(FIXTURES), thorough=len(FIXTURES), doc='shipped .xls/.xlsx workbooks read unchanged'),
